@@ -24,7 +24,8 @@ RULE = ('family = one shuffled dataset object (one-time shuffle, per-epoch reshu
         'adversary step fired; distinct = distinct (dataset, op list).')
 PROBES = ['dataset_derived_while_iterator_in_flight', 'iterators_over_freezing_consumer',
           'second_iterator_started_while_first_in_flight', 'three_iterators_in_flight',
-          'adversary_reseeded_global_state', 'displacement_bound_reached']
+          'adversary_reseeded_global_state', 'displacement_bound_reached',
+          'rounds_of_an_endless_repetition', 'none_example_shuffled']
 BUDGET = {
     'quick': {'families': 20000, 'wall_cap': 420, 'shrink_s': 10},
     'thorough': {'families': 200000, 'wall_cap': 5400, 'shrink_s': 30},
@@ -161,6 +162,21 @@ def _binom(n, k):
 
 
 def gen(rng, tier, index):
+    if index % 12 == 11:
+        n = rng.randrange(1, 7)
+        kind = rng.choice(['once', 'reshuffle', 'reshuffle', 'local', 'tile'])
+        cases = []
+        for j in range(4):
+            spec = {'kind': kind, 'n': n, 'source': rng.choice(['list', 'dict']),
+                    'rng': rng.choice(['explicit', 'global']) if kind != 'tile' else 'global',
+                    'seed': rng.randrange(1 << 16), 'gseed': rng.randrange(1 << 16),
+                    'none_at': rng.randrange(n) if rng.random() < 0.6 else None}
+            if kind == 'local':
+                spec['b'] = rng.randrange(1, n + 2)
+            if kind == 'tile':
+                spec['reps'] = rng.randrange(1, 4)
+            cases.append({'mode': 'rounds', 'spec': spec, 'rounds': rng.randrange(2, 6), 'ops': []})
+        return cases
     spec = gen_spec(rng)
     nit = rng.choice([1, 2, 2, 2, 3])
     if spec['n'] > 12:
@@ -200,7 +216,72 @@ def _ids_of(x, spec):
     return src_ids(x)
 
 
+def run_rounds(case):
+    """One iterator over `<shuffle>.cycle()`: every round of the endless stream is
+    a permutation of the input, for as many rounds as the consumer takes; one
+    of the input examples may be None (a legal example)."""
+    import warnings
+    import lazy_dataset
+    spec = case['spec']
+    n, none_at, rounds = spec['n'], spec.get('none_at'), case['rounds']
+    st = np.random.get_state()
+    np.random.seed(spec['gseed'])
+    violations = []
+    try:
+        with warnings.catch_warnings(record=True):
+            warnings.simplefilter('always')
+            exs = [None if i == none_at else {'src': i} for i in range(n)]
+            src = lazy_dataset.new({'k%d' % i: e for i, e in enumerate(exs)}
+                                   if spec['source'] == 'dict' else exs)
+            rng = np.random.RandomState(spec['seed']) if spec['rng'] == 'explicit' else None
+            kind = spec['kind']
+            if kind == 'once':
+                ds = src.shuffle(False, rng=rng)
+            elif kind == 'reshuffle':
+                ds = src.shuffle(True, rng=rng)
+            elif kind == 'local':
+                ds = src.shuffle(True, rng=rng, buffer_size=spec['b'])
+            else:
+                ds = src.tile(spec['reps'], shuffle=True)
+            m = n * (spec['reps'] if kind == 'tile' else 1)
+            want = collections.Counter({i: (spec['reps'] if kind == 'tile' else 1) for i in range(n)})
+            got = []
+            it = iter(ds.cycle())
+            err = None
+            try:
+                for _ in range(rounds * m):
+                    got.append(next(it))
+            except StopIteration:
+                err = 'the endless stream ended after %d of %d examples' % (len(got), rounds * m)
+            except Exception as e:
+                err = 'raised %s: %s' % (type(e).__name__, str(e)[:100])
+            _close_iter(it)
+            ids = [none_at if x is None else (x['src'] if isinstance(x, dict) and 'src' in x else -1)
+                   for x in got]
+            if err:
+                violations.append(hist.viol('endless_stream_ended', 'endless_stream_ended:%s' % kind,
+                                            '%s.cycle(): %s (ids so far %s)' % (kind, err, ids)))
+            else:
+                for r in range(rounds):
+                    block = ids[r * m:(r + 1) * m]
+                    if collections.Counter(block) != want:
+                        violations.append(hist.viol(
+                            'not_a_permutation', 'not_a_permutation:%s:cycle' % kind,
+                            'round %d of %s.cycle() yielded %s, not a permutation of the %d inputs'
+                            % (r, kind, block, n)))
+                        break
+    finally:
+        np.random.set_state(st)
+    return hist.outcome(case, nontrivial=True, key=hist.hkey(case), violations=violations,
+                        fired={'mode_rounds': 1, 'kind_' + spec['kind']: 1},
+                        probes={'rounds_of_an_endless_repetition': 1,
+                                **({'none_example_shuffled': 1} if none_at is not None else {})},
+                        stats={'rounds': rounds}, sample={'case': case}, digest_extra=None)
+
+
 def run(case):
+    if case.get('mode') == 'rounds':
+        return run_rounds(case)
     if case['spec'].get('wrap') in ('prefetch_pool', 'prefetch_alias1'):
         from .. import sim as S
         from lazy_dataset import parallel_utils as ldp
@@ -404,6 +485,12 @@ def _streams(out, wrap, spec):
 
 
 def shrink(case):
+    if case.get('mode') == 'rounds':
+        if case['rounds'] > 1:
+            c = hist.clone(case)
+            c['rounds'] -= 1
+            yield c
+        return
     yield from hist.shrink_ops(case, 'ops')
     spec = case['spec']
     if spec['n'] > 1:
